@@ -180,6 +180,12 @@ Lemma server_iff t :
   (exists ps, server_patterns t = Built ps) <-> pats_consistent (collect_patterns t).
 Proof. apply server_patterns_iff. Qed.
 
+Lemma pattern_order t :
+  ((exists ps, server_patterns t = Built ps) <-> pats_consistent (collect_patterns t))
+  /\ forall ps, server_patterns t = Built ps ->
+       Permutation ps (collect_patterns t) /\ StronglySorted before ps /\ pats_consistent ps.
+Proof. split; [apply server_iff | apply http_patterns_order]. Qed.
+
 Lemma identical_pattern_rejected a t d1 d2 p :
   construct a = Built t ->
   let D := all_descs (a_services a) in
